@@ -157,7 +157,13 @@ impl Hist {
                         let n = t.u64() as usize;
                         let mut denoms = vec![];
                         let mut decs = vec![];
-                        for _ in 0..n { denoms.push(self.w.rd(t.s())); decs.push(t.u64() as u8); }
+                        // a decimals token `x` means "no entry" (asset_decimals shorter than asset_denoms), `+<k>` an extra entry
+                        for _ in 0..n {
+                            denoms.push(self.w.rd(t.s()));
+                            let dt = t.s().to_string();
+                            if dt == "x" { continue; }
+                            if let Some(extra) = dt.strip_prefix('+') { let v: u8 = extra.parse().unwrap_or(6); decs.push(v); decs.push(v); } else { decs.push(dt.parse().unwrap_or(0)); }
+                        }
                         let fees = t.fees();
                         let id = opt_s(&mut t);
                         pmm::ExecuteMsg::CreatePool {
